@@ -59,8 +59,8 @@ def preload(prop):
 # ----------------------------------------------------------------------------- plans
 
 
-def _gen_prep_screen(w, single_sample_plates):
-    arity = 2
+def _gen_prep_screen(w, single_sample_plates, allow_arity=False):
+    arity = w.choice([2, 2, 2, 2, 2, 2, 3, 3, 1]) if allow_arity else 2
     n_samples = w.randint(1, 5)
     samples = w.sample(gen.SAMPLE_POOLS["ascii"], n_samples)
     names = w.sample(gen.NAME_POOLS["ascii"], w.randint(2, 6))
@@ -112,7 +112,9 @@ def _gen_step(s, kind=None):
     if kind == "pairwise":
         st["params"] = dict(subset_size=s.randint(1, 3), anchor_size=s.choice([0, 0, 1, 2]))
     elif kind == "permute":
-        st["params"] = dict(force=s.choice([None, None, ["pl0"], ["pl1", "generated_plate_0"]]))
+        # the optional list may name a plate twice, name plates that do not exist or are observed, or be empty
+        st["params"] = dict(force=s.choice([None, None, ["pl0"], ["pl1", "generated_plate_0"], ["pl0", "pl0"], ["pl1", "pl0", "pl1"],
+                                            [], ["no_such_plate"], ["pl2", "pl1", "pl0", "pl3"]]))
     elif kind == "segregate":
         st["params"] = dict(max_plate_size=s.choice([1, 2, 3, 4, 5, 8, 50]))
     elif kind == "merge_min":
@@ -128,7 +130,7 @@ def _gen_step(s, kind=None):
     elif kind == "cover":
         st["params"] = dict(reveal_single=s.random() < 0.5)
     elif kind in ("split", "random_holdout"):
-        st["params"] = dict(fraction=s.choice([0.0, 0.1, 0.3, 0.5, 0.7, 1.0, 1.0 / 3.0]))
+        st["params"] = dict(fraction=s.choice([0.0, 0.1, 0.3, 0.5, 0.7, 1.0, 1.0 / 3.0, 0.25, 0.75, 2.0 / 3.0, 0.9, 0.99, 0.01, 1e-9]))
     else:
         st["params"] = {}
     return st
@@ -137,7 +139,7 @@ def _gen_step(s, kind=None):
 def gen_plan(prop, run_seed, tier):
     F = Forks(run_seed)
     w, s = F.fork("workload"), F.fork("schedule")
-    spec = _gen_prep_screen(w, single_sample_plates=w.random() < 0.7)
+    spec = _gen_prep_screen(w, single_sample_plates=w.random() < 0.7, allow_arity=True)
     n = s.randint(1, 6)
     steps = []
     if s.random() < 0.25:
